@@ -196,5 +196,21 @@ CHECKS["C08"] = {
             "gadget attributes, includes) is caught only by the repeated runs. The CLI's write-only-if-changed is C15's subject.",
 }
 
+CHECKS["C20"] = {
+    "text": "Proofs (closed under the global context) over model/Recovery.v (ObjectCodeMap::build's per-binding recovery, build_binding_map's all-or-nothing maps, "
+            "populate_node_rec's filter_map over children, the form returned whenever the root resolves): a binding whose build fails is dropped ALONE -- the preview is "
+            "exactly the preview of the document without it, its error is reported and no other error is lost (C20_binding_fault_local); a duplicated binding empties "
+            "the property map of that object and touches nothing else (C20_duplicate_loses_only_own); an object whose type does not resolve is absent with exactly its "
+            "subtree, wherever it stands, siblings kept (C20_subtree_absent, C20_unresolved_subtrees_absent); a form exists whenever the root resolves "
+            "(C20_form_exists); losing the attached map of a child as a whole moves the cells of its following siblings (C20_attached_loss_moves_siblings_refuted, "
+            "the mechanism of F15). Decision on the real code: two runs of the real pipeline in omit mode per fault position -- form(document with fault) vs "
+            "form(document without the faulty binding / subtree), compared as element trees after the erasure fixed in props/C20.v (generated names of anonymous "
+            "objects abstracted); errors must be reported; 10 fault kinds at random objects of generated documents.",
+    "technique": "Coq proof over a model of the recovery mechanisms + two-run relational check of the real preview form for every planted fault",
+    "design_ref": "5 C20",
+    "note": "Trusted: the erasure implemented in vlib/c20.py as stated in props/C20.v; faults that are syntax errors (tree-sitter recovery) are outside (C07 covers totality). "
+            "The theorems are about the mechanism; the relation on real forms is decided per fault by the two-run comparison.",
+}
+
 NOT_YET = {
 }
